@@ -119,7 +119,7 @@ Alu(fn, y, x) ==
               [] fn = "and" -> IF y.v >= 0 /\ x.v >= 0 THEN Pub(y.v & x.v) ELSE Unk
               [] fn = "or"  -> IF y.v >= 0 /\ x.v >= 0 THEN Pub(y.v | x.v) ELSE Unk
               [] fn = "xor" -> IF y.v >= 0 /\ x.v >= 0 THEN Pub(y.v ^^ x.v) ELSE Unk
-              [] fn = "shl" -> IF x.v <= 20 /\ y.v >= 0 /\ y.v < 1024 THEN Pub(y.v * (2 ^ x.v)) ELSE Unk
+              [] fn = "shl" -> IF x.v >= 0 /\ x.v <= 20 /\ y.v >= 0 /\ y.v < 1024 THEN Pub(y.v * (2 ^ x.v)) ELSE Unk
               [] fn = "shr" -> IF y.v >= 0 /\ x.v < 31 THEN Pub(y.v \div (2 ^ x.v)) ELSE Unk
               [] OTHER -> Unk        \* rotates, multiplies, bit scans ...: a public value the machine does not compute
   ELSE IF y.t = "ptr" /\ x.t = "pub" /\ fn = "add" THEN Ptr(y.r, y.v + x.v)
@@ -235,8 +235,10 @@ Step ==
                IN Commit(Write(s2, ins.b, val, ins.w, ln), pc + 1) /\ UNCHANGED nsb
           [] ins.cl = "vecmask" ->
                LET m == s.kr[ins.c.r]
-               IN IF m.t # "pub"
+               IN IF m.t = "sec"
                   THEN Commit(Err(s, ln, "C09 mask register is not a public constant"), 0) /\ UNCHANGED nsb
+                  ELSE IF m.t # "pub"       \* a public mask whose value the machine did not compute (wide shifts ...)
+                  THEN Commit(Err(s, ln, "unsupported: value of the mask register is not known to the machine"), 0) /\ UNCHANGED nsb
                   ELSE LET w == BitLen(m.v) * ins.t
                            ld == ins.a.k = "m"
                            ra == IF ld THEN Access(s, MBase(s, ins.a), ins.a.v, w, FALSE, ln) ELSE Read(s, ins.a, w, ln)
